@@ -61,6 +61,10 @@ CHECKS["C17"] = dict(level="exploration",
    text="Path strings from a grammar (exhaustive to depth 3 over 9-15 components x 2 prefixes plus absolute sentinel paths; Hypothesis-sampled at depth 4-5 with doubled slashes) are pushed through 20 entry points (all public LocalStorageBackend methods, lock creation, DataFileManager read/open/write, append_files/delete_files), and tampered manifest entries / manifest references / manifest-list references / marker payloads (10 escaping spellings) are followed by 9 actions (scans, row_count, GC, verify_integrity, append, delete). The table root is reached directly and through a symlink and contains symlinks to the outside. A process-wide audit hook flags any open/list/remove/rename/mkdir/utime/truncate/link on a path outside the canonical root (and paths handed to the native parquet reader/writer); the sentinel tree's fingerprint must not change; an escaping path must raise; no read may return the sentinel's rows.",
    note="stat-like probes are not flagged. Native pyarrow opens are observed through the arguments the library passes to pyarrow.parquet (no ptrace/strace in the registered commands).",
    technique="exhaustive small-depth path-grammar enumeration + Hypothesis sampling at larger depth, oracle = audit-hook access monitor + sentinel fingerprint", design="3/C17")
+CHECKS["C01"] = dict(level="exploration",
+   text="Schedule search with a deterministic cooperative scheduler that owns the interleaving at every storage-API call, lock syscall, atomic publish and S3 request: exhaustive single-preemption enumeration (every decision index x every actor x both priority orders) for fixed 2-committer scenarios, plus Hypothesis PCT-style schedules (priority order + <=3 change points) over generated scenarios (local flock / conditional-write S3, shared or separate handles, real-like or coarse clock, 2-4 committers over 6 operation kinds). Refinement oracle: every version the pointer ever named is parsed by the independent reader in flip order and must equal the previous version with exactly the flipping actor's operation applied; acknowledged <=> flipped exactly once; final table = last flipped version; sequence numbers unique and +1 per snapshot commit.",
+   note="A bounded search: preemption depth 1 exhaustively for the fixed scenarios, depth <=3 sampled elsewhere; interleavings inside one storage call / inside pyarrow and true multi-process memory effects are out of reach. Separate handles in one process stand in for separate processes (kernel flock and the object store are the only shared state).",
+   technique="deterministic-scheduler schedule enumeration + Hypothesis PCT schedule generation, refinement oracle against a sequential model over the pointer-flip history", design="3/C01")
 NOT_YET = {}
 
 def main():
